@@ -248,6 +248,7 @@ class TlsExtensionServerNameClient(TlsExtensionParsed):
         server_name = bytes(bytearray(parser['server_name']))
         try:
             host_name = six.ensure_text(server_name, 'idna')
+            six.ensure_binary(host_name, 'idna')  # a name with an empty label decodes, but cannot be encoded again
         except UnicodeError as e:
             six.raise_from(InvalidValue(server_name, cls, 'host_name'), e)
 
